@@ -1,0 +1,17 @@
+//go:build verif
+
+// Contracts for the verification machinery in /verif (comment-only; no declarations).
+// C17: the host takes observed addresses only from ObservedAddrsManager.AddrsFor (activation threshold applied there),
+// asked once per listen address and once per resolved listen address, and keeps at most three of each answer.
+
+package basichost
+
+//@ func (a *addrsManager) appendObservedAddrs
+//@ prop C17
+//@ loop 0 invariant 0 <= idx0 && idx0 <= len(listenAddrs) && len(dst) >= len(old(dst)) && len(dst) <= len(old(dst)) + maxObservedAddrsPerListenAddr * idx0
+//@ loop 1 invariant 0 <= idx1 && idx1 <= len(resolved) && len(dst) >= len(old(dst)) && len(dst) <= len(old(dst)) + maxObservedAddrsPerListenAddr * (len(listenAddrs) + idx1)
+//@ callsite AddrsFor#0 requires arg0 == a.observedAddrsManager && arg1 == listenAddrs[idx0]
+//@ callsite AddrsFor#1 requires arg0 == a.observedAddrsManager && arg1 == resolved[idx1]
+//@ ensures len(result) >= len(dst) && len(result) <= len(dst) + maxObservedAddrsPerListenAddr * (len(listenAddrs) + len(ret(ResolveUnspecifiedAddresses, 0, 0)))
+//@ ensures maxObservedAddrsPerListenAddr == 3
+//@ noframe
